@@ -186,4 +186,15 @@ def run(repo, tier):
          'unit-ful init columns are converted to the data unit (their bare values are used afterwards)'),
     ])
     run_forward(repo, res, {'photutils.aperture.photometry', 'photutils.aperture.core', 'photutils.aperture.stats'})
+    apply_specs(repo, res, [
+        ('photutils.utils.errors.calc_total_error', 'stmt', 'effective_gain = np.zeros(data.shape) + effective_gain',
+         'a scalar gain is broadcast by arithmetic (keeps the unit of a scalar Quantity)'),
+        ('photutils.aperture.stats.ApertureStats.biweight_midvariance', 'ret', 'self._calculate_stats(biweight_midvariance, unit=unit)',
+         'variance-like statistic carries the squared unit'),
+        ('photutils.aperture.stats.ApertureStats.var', 'ret', 'self._calculate_stats(np.var, unit=unit)', 'variance carries the squared unit'),
+        ('photutils.psf.photometry.PSFPhotometry.__call__', 'stmt', 'error = unc.represent_as(StdDevUncertainty).quantity',
+         'NDData uncertainties of any flavour are converted to standard deviations'),
+        ('photutils.psf.photometry.IterativePSFPhotometry.__call__', 'stmt', 'error = unc.represent_as(StdDevUncertainty).quantity',
+         'NDData uncertainties of any flavour are converted to standard deviations'),
+    ])
     return res
